@@ -867,13 +867,16 @@ pub fn recipe_strategy(max_ops: usize) -> impl proptest::strategy::Strategy<Valu
     (any::<u16>(), any::<u16>(), prop::collection::vec((any::<u32>(), any::<u8>(), any::<u64>()), 0..=max_ops)).prop_map(|(type_index, base_index, ops)| Recipe { type_index, base_index, ops })
 }
 
+static CORPUS: std::sync::OnceLock<(u64, Corpus)> = std::sync::OnceLock::new();
 /// process-wide corpus (built once per run from VERIF_SEED)
 pub fn corpus(seed: u64) -> &'static Corpus {
-    use std::sync::OnceLock;
-    static C: OnceLock<(u64, Corpus)> = OnceLock::new();
-    let c = C.get_or_init(|| (seed, Corpus::build(seed, 10)));
+    let c = CORPUS.get_or_init(|| (seed, Corpus::build(seed, 10)));
     assert_eq!(c.0, seed, "corpus requested with two different seeds in one process");
     &c.1
+}
+/// the corpus after it has been initialised by `corpus(seed)`
+pub fn corpus_get() -> &'static Corpus {
+    &CORPUS.get().expect("corpus not initialised").1
 }
 
 /// Value of an MSM message with the given rows (data fields taken from the learned row templates).
@@ -905,3 +908,4 @@ pub fn msm_value(tc: &TypeCorpus, sats: &[u8], cells: &[(u8, (u8, char))]) -> Op
 pub fn number_of_variant_name(name: &str) -> Option<u16> {
     name.strip_prefix("Msg").and_then(|n| n.parse().ok())
 }
+
